@@ -881,6 +881,13 @@ aiff_read_header (SF_PRIVATE *psf, COMM_CHUNK *comm_fmt)
 						break ;
 						}
 
+					/* The channel map has one entry per channel : the COMM chunk must have been seen. */
+					if ((found_chunk & (HAVE_FORM | HAVE_AIFF | HAVE_COMM)) != (HAVE_FORM | HAVE_AIFF | HAVE_COMM))
+					{	psf_log_printf (psf, " %M : %d (before COMM chunk, ignored)\n", marker, chunk_size) ;
+						psf_binheader_readf (psf, "j", chunk_size) ;
+						break ;
+						}
+
 					psf_log_printf (psf, " %M : %d\n", marker, chunk_size) ;
 
 					if ((error = aiff_read_chanmap (psf, chunk_size)))
@@ -1065,6 +1072,12 @@ aiff_read_comm_chunk (SF_PRIVATE *psf, COMM_CHUNK *comm_fmt)
 	{	psf_log_printf (psf, "  *** channel count changed, discarding existing PEAK chunk\n") ;
 		free (psf->peak_info) ;
 		psf->peak_info = NULL ;
+		} ;
+
+	if ((psf->sf.channels != comm_fmt->numChannels) && psf->channel_map)
+	{	psf_log_printf (psf, "  *** channel count changed, discarding existing channel map\n") ;
+		free (psf->channel_map) ;
+		psf->channel_map = NULL ;
 		} ;
 
 	subformat = s_bitwidth_to_subformat (comm_fmt->sampleSize) ;
